@@ -16,6 +16,9 @@ func main() {
 	timeout := flag.Int("timeout", 10, "solver timeout (s)")
 	keep := flag.String("keep", "", "directory to keep SMT files in")
 	only := flag.String("only", "", "substring filter on obligation names")
+	verif := flag.String("verif", "/verif", "verification directory")
+	relock := flag.Bool("relock", false, "rewrite obligations.lock.json for the checked property")
+	ov := flag.String("ov", "", "overlay: /repo/file.go=/path/to/replacement[,...]")
 	flag.Parse()
 	args := flag.Args()
 	if len(args) < 1 {
@@ -23,8 +26,40 @@ func main() {
 		os.Exit(2)
 	}
 	switch args[0] {
+	case "check":
+		if len(args) < 3 {
+			fmt.Println("usage: govc check <PROPERTY> quick|thorough")
+			os.Exit(2)
+		}
+		seed := 0
+		fmt.Sscanf(os.Getenv("VERIF_SEED"), "%d", &seed)
+		overlay := map[string][]byte{}
+		if *ov != "" {
+			for _, kv := range strings.Split(*ov, ",") {
+				parts := strings.SplitN(kv, "=", 2)
+				b, err := os.ReadFile(parts[1])
+				if err != nil {
+					fmt.Println("ERROR", err)
+					os.Exit(2)
+				}
+				overlay[parts[0]] = b
+			}
+		}
+		os.Exit(govc.RunCheck(*verif, *repo, args[1], args[2], seed, overlay, *relock))
 	case "vc":
-		eng, err := govc.Load(*repo, strings.Split(args[1], ","), nil, *speclib)
+		overlay := map[string][]byte{}
+		if *ov != "" {
+			for _, kv := range strings.Split(*ov, ",") {
+				parts := strings.SplitN(kv, "=", 2)
+				b, err := os.ReadFile(parts[1])
+				if err != nil {
+					fmt.Println("ERROR", err)
+					os.Exit(2)
+				}
+				overlay[parts[0]] = b
+			}
+		}
+		eng, err := govc.Load(*repo, strings.Split(args[1], ","), overlay, *speclib)
 		if err != nil {
 			fmt.Println("ERROR", err)
 			os.Exit(2)
